@@ -92,6 +92,10 @@ impl Report {
         }
     }
 
+    pub fn is_empty(&self) -> bool {
+        self.by_sig.is_empty()
+    }
+
     pub fn violation(&mut self, v: Violation) {
         let e = self.by_sig.entry(v.sig).or_insert((0, v.detail));
         e.0 += 1;
